@@ -18,4 +18,4 @@ hprop.install(globals(), hprop.HistoryProperty(
     quick=(16, 60, 40), thorough=(16, 1500, 70), probes=True,
     instr_bias={"inject": True, "kinds": [1, 1, 1, 1, 1, 1, 0, 0, 2, 5, 6, 7, 8, 3, 4], "vclasses": [0, 1, 1, 9, 9, 9, 8, 2], "tclasses": [0, 0, 2, 7, 7, 5, 6]},
 ))
-FLOORS = {"quick": {"flag:dispatched_vehicle_redirected": 50, "flag:ran_empty_while_dispatched": 5}, "thorough": {"flag:ran_empty_while_dispatched": 50}}
+FLOORS = {"quick": {"flag:dispatched_vehicle_redirected": 30, "flag:ran_empty_while_dispatched": 5}, "thorough": {"flag:ran_empty_while_dispatched": 50}}
